@@ -722,6 +722,7 @@ class PDFDocument:
         self._parser = None
         self._cached_objs: Dict[int, Tuple[object, int]] = {}
         self._parsed_objs: Dict[int, Tuple[List[object], int]] = {}
+        self._opening_objstms: Set[int] = set()
         self._parser = parser
         self._parser.set_document(self)
         self.is_printable = self.is_modifiable = self.is_extractable = True
@@ -868,7 +869,14 @@ class PDFDocument:
                     continue
                 try:
                     if strmid is not None:
-                        stream = stream_value(self.getobj(strmid))
+                        if strmid in self._opening_objstms:
+                            # the object stream would have to be read from itself
+                            raise PDFSyntaxError("Object stream cycle: %r" % strmid)
+                        self._opening_objstms.add(strmid)
+                        try:
+                            stream = stream_value(self.getobj(strmid))
+                        finally:
+                            self._opening_objstms.discard(strmid)
                         obj = self._getobj_objstm(stream, index, objid)
                     else:
                         obj = self._getobj_parse(index, objid)
